@@ -1,31 +1,61 @@
 """C06 - grid-size independent multigrid convergence on the showcase."""
+import itertools
+
 import numpy as np
 from hypothesis import strategies as st
+from scipy.constants import mu_0
 
-from vp.framework import Violation
+from vp import refop
+from vp.framework import HarnessError, Violation
 
-RULE = ("A family = (cycle F/V/W, isotropic, triaxial 1:2:3, HTI or VTI "
+RULE = ("A family = (cycle F/V/W, isotropic, triaxial 1:2:3 in any of the "
+        "six axis orders, HTI or VTI "
         "(factor 2 either way) medium, "
-        "frequency or Laplace domain, nu_pre, nu_post in 1..3) plus a "
+        "frequency or Laplace domain, nu_pre, nu_post in 0..3 with sum >= 2) "
+        "plus a "
         "Hypothesis-drawn electric point source (position in the central "
-        "40 % of the domain, any azimuth/elevation) and frequency "
-        "(0.3..3 Hz); the same draw is solved with stand-alone multigrid "
-        "(tol 1e-8) on uniform grids of 8, 16, 32 (a share also 64 and a non-cubic "
-        "2^a x 3*2^b x 5*2^c shape with cubic cells; thorough: 128 and more "
-        "non-cubic shapes) cells per direction over the same 1 km cube.  Oracle "
+        "40 % of the domain, any azimuth/elevation), frequency "
+        "(0.3..3 Hz), grid origin (0 / negative / UTM-like), spelling "
+        "(plain=True or three explicit False) and, for isotropic media, cell "
+        "aspect dx:dy:dz (1:1:1 or ratios <= 1.56); the same draw is solved "
+        "with stand-alone multigrid "
+        "(tol 1e-8, a share 1e-11) on uniform grids of 8, 16, 32 (a share "
+        "also 64 and a non-cubic "
+        "2^a x 3*2^b x 5*2^c shape in a drawn axis order with cubic cells; "
+        "thorough: 128 and more "
+        "non-cubic shapes) cells per direction over the same domain.  Oracle "
         "(metamorphic in grid size): all sizes converge; average reduction "
         "factor rho(n) <= 1.5*rho(16)+0.02 for n >= 16 and <= an absolute "
-        "cap per (medium, nu_pre+nu_post) = 1.5 x the largest factor "
-        "measured on the pinned tree; cycles(n) <= cycles(16)+3.  "
+        "cap per (medium class, nu_pre+nu_post) = 1.5 x the largest factor "
+        "measured on the pinned tree; the worst per-cycle factor after the "
+        "first cycle likewise (own caps, <= 1.5*worst(16)+0.03); "
+        "cycles(n) <= cycles(16)+3.  rho is computed from an independently "
+        "evaluated final residual (vp.refop up to 16^3 cells, "
+        "emg3d.solver.residual above), which must be below tol*||s|| and "
+        "equal info['abs_error']; ref_error, rel_error, error_at_cycle and "
+        "it_mg must be consistent with it.  At 16^3 the solve is repeated "
+        "on the same model/source objects with maxit=j (drawn): residual of "
+        "the returned field == error_at_cycle[j] of the full solve, and the "
+        "sequence of emg3d.solver.smoothing calls (grid shape, nu) == the "
+        "textbook V/F/W schedule of the docstring diagram (exact); "
+        "continuing from that field (efield=) reproduces the remaining "
+        "history.  Sub-check visits: the same exact schedule oracle over "
+        "cycle x shape (cubic, non-cubic) x nu_init/nu_pre/nu_coarse/"
+        "nu_post x maxit 1..3.  "
         "Non-trivial = every family (all sizes converged); distinct by the "
         "whole draw.")
 ASSUMPTIONS = [
-    "absolute caps: table CAPS below = 1.5 x max factor measured over 216 "
-    "family/source draws at 16^3 and 32^3 on the pinned tree (isotropic and "
-    "triaxial 1:2:3; the factor-2 HTI/VTI media were measured to converge "
-    "faster than the triaxial one for every nu_pre+nu_post, 168 draws)",
+    "absolute caps: tables MEASURED / MEASURED_W below = max average / "
+    "worst-per-cycle factor measured on the pinned tree at 16^3, 32^3 and "
+    "non-cubic shapes (see comment at the tables for the number of draws); "
+    "cap = 1.5 x measured",
     "h-independence threshold 1.5*rho(16)+0.02 (measured rho(32)/rho(16) "
-    "in [0.85, 1.23])",
+    "in [0.85, 1.23]); worst per-cycle factor 1.5*worst(16)+0.03",
+    "schedule oracle observes emg3d.solver.smoothing (harness error, not a "
+    "violation, if that function is never called during a solve)",
+    "restart oracle: a multigrid cycle is a stationary iteration, so a solve "
+    "continued from its own j-th iterate has the same remaining history "
+    "(compared to 1e-9 relative)",
 ]
 SHARDS = {'quick': 1, 'thorough': 16}
 
@@ -34,9 +64,27 @@ MEASURED = {
     0: {2: 0.214, 3: 0.154, 4: 0.109, 5: 0.083, 6: 0.063},
     1: {2: 0.409, 3: 0.276, 4: 0.186, 5: 0.127, 6: 0.095},
 }
+# measured max of the worst per-cycle factor err[i+1]/err[i], i >= 1
+MEASURED_W = {
+    0: {2: 1.0, 3: 1.0, 4: 1.0, 5: 1.0, 6: 1.0},
+    1: {2: 1.0, 3: 1.0, 4: 1.0, 5: 1.0, 6: 1.0},
+}
 CAPS = {a: {k: 1.5*v for k, v in d.items()} for a, d in MEASURED.items()}
+CAPS_W = {a: {k: 1.5*v for k, v in d.items()} for a, d in MEASURED_W.items()}
 NONCUBIC = [(32, 24, 20), (16, 48, 40), (40, 16, 24), (64, 24, 40),
             (48, 40, 32), (20, 12, 16)]
+# shapes of the schedule sub-check (cheap ones; 3 and 5 as coarsest sizes)
+VSHAPES = [(8, 8, 8), (16, 16, 16), (32, 32, 32), (20, 12, 16), (12, 20, 8),
+           (8, 12, 20), (4, 4, 4), (24, 16, 40), (32, 24, 20)]
+PERMS = list(itertools.permutations(range(3)))      # identity first
+ORIGINS = [(0.0, 0.0, 0.0), (-500.0, -500.0, -1000.0),
+           (5e5, 6.2e6, -3000.0)]
+# uniform cells with dx:dy:dz != 1 (isotropic media only): largest ratio
+# 1.5625, i.e. an effective anisotropy of the smoother < 2.5
+ASPECTS = [(1.0, 1.0, 1.0), (1.0, 1.25, 0.8), (0.8, 1.0, 1.25),
+           (1.4, 1.0, 1.0)]
+DEEP_TOL = 1e-11
+C_EPS = 1e4*np.finfo(float).eps
 
 
 MEDIA = {
@@ -61,7 +109,8 @@ def spec_strategy(big, huge=False, medium=None):
         # vertical (VTI), either way round
         'acase': st.sampled_from(list(MEDIA)),
         'laplace': st.booleans(),
-        'nu': st.tuples(st.integers(1, 3), st.integers(1, 3)).map(list),
+        'nu': st.tuples(st.integers(0, 3), st.integers(0, 3)).filter(
+            lambda t: t[0]+t[1] >= 2).map(list),
         'src': st.tuples(st.floats(0.3, 0.7), st.floats(0.3, 0.7),
                          st.floats(0.3, 0.7), st.floats(-180, 180),
                          st.floats(-90, 90)).map(list),
@@ -72,57 +121,339 @@ def spec_strategy(big, huge=False, medium=None):
         # the thorough tier, the two cheapest ones also in the quick tier
         'noncubic': st.sampled_from([None] + list(range(len(NONCUBIC))))
         if huge or big == 'nc' else st.sampled_from([None, 0, 5, 0, 5]),
+        # axis order of the non-cubic shape / of the triaxial 1:2:3 medium
+        'perm': st.integers(0, 5),
+        'tperm': st.integers(0, 5),
+        'origin': st.sampled_from([0, 1, 2]),
+        # cell aspect (index into ASPECTS; applied to isotropic media only)
+        'aspect': st.sampled_from([0, 0, 1, 2, 3]),
+        'plain': st.booleans(),
+        # tol 1e-11 instead of 1e-8 (families up to 32^3 only)
+        'deep': st.booleans(),
+        # prefix / restart / schedule sub-oracle at 16^3 after j cycles
+        'jcut': st.integers(1, 4),
         **fixed,
     })
 
 
-def _run(emg3d, spec, shape, h):
-    L = [n*h for n in shape]
-    grid = emg3d.TensorMesh([np.ones(n)*h for n in shape], origin=(0, 0, 0))
-    model = (emg3d.Model(grid, **MEDIA[spec.get('acase', 'tri')])
-             if spec['aniso'] else emg3d.Model(grid, 1.0))
+# ------------------------------------------------------------------ helpers
+def _medium_name(spec):
+    return spec.get('acase', 'tri') if spec['aniso'] else 'iso'
+
+
+def _aspect(spec):
+    return ASPECTS[0] if spec['aniso'] else ASPECTS[spec.get('aspect', 0)]
+
+
+def _tol(spec):
+    deep = (spec.get('deep', False) and spec['big'] is False
+            and not spec['huge'])
+    return DEEP_TOL if deep else 1e-8
+
+
+def _props(spec):
+    """Resistivities (x, y, z) of the homogeneous medium."""
+    rs = float(spec.get('rs', 1.0))
+    if not spec['aniso']:
+        return rs, rs, rs
+    name = spec.get('acase', 'tri')
+    if name == 'tri':
+        p = PERMS[spec.get('tperm', 0)]
+        v = (1.0, 2.0, 3.0)
+        return rs*v[p[0]], rs*v[p[1]], rs*v[p[2]]
+    kw = MEDIA[name]
+    rx = kw['property_x']
+    return (rs*rx, rs*kw.get('property_y', rx), rs*kw.get('property_z', rx))
+
+
+def _setup(emg3d, spec, shape, h):
+    asp = _aspect(spec)
+    hh = [np.ones(n)*h*a for n, a in zip(shape, asp)]
+    L = [n*h*a for n, a in zip(shape, asp)]
+    org = ORIGINS[spec.get('origin', 0)]
+    grid = emg3d.TensorMesh(hh, origin=org)
+    rx, ry, rz = _props(spec)
+    name = spec.get('acase', 'tri')
+    if not spec['aniso']:
+        model = emg3d.Model(grid, rx)
+    elif name == 'tri':
+        model = emg3d.Model(grid, property_x=rx, property_y=ry,
+                            property_z=rz)
+    elif name.startswith('HTI'):
+        model = emg3d.Model(grid, property_x=rx, property_y=ry)
+    else:
+        model = emg3d.Model(grid, property_x=rx, property_z=rz)
     s = spec['src']
-    coo = (s[0]*L[0], s[1]*L[1], s[2]*L[2], s[3], s[4])
+    coo = (org[0]+s[0]*L[0], org[1]+s[1]*L[1], org[2]+s[2]*L[2], s[3], s[4])
     f = -spec['f'] if spec['laplace'] else spec['f']
     sf = emg3d.get_source_field(grid, coo, frequency=f)
-    _, info = emg3d.solve(model, sf, sslsolver=False, semicoarsening=False,
-                          linerelaxation=False, cycle=spec['cycle'],
-                          return_info=True, verb=-1, tol=1e-8,
-                          nu_pre=spec['nu'][0], nu_post=spec['nu'][1],
-                          maxit=60)
+    return {'grid': grid, 'model': model, 'sf': sf, 'h': hh, 'shape': shape,
+            'sval': spec['f'] if spec['laplace'] else 2j*np.pi*spec['f'],
+            'res': _props(spec), 'A': None}
+
+
+def _true_residual(emg3d, S, efield):
+    """||s - A e|| without the solver's book-keeping; (norm, floor)."""
+    sf = S['sf']
+    if int(np.prod(S['shape'])) <= 16**3:
+        if S['A'] is None:
+            rx, ry, rz = S['res']
+            A, interior, *_ = refop.assemble(*S['h'], 1/rx, 1/ry, 1/rz,
+                                             None, None, S['sval'])
+            S['A'] = (A, interior, refop.absmat(A))
+        A, interior, absA = S['A']
+        e = np.asarray(efield.field)
+        s0 = np.asarray(sf.field)
+        r = s0 - A @ e
+        r[~interior] = 0
+        floor = C_EPS*float(np.linalg.norm(
+            (absA @ np.abs(e) + np.abs(s0))[interior]))
+        return float(np.linalg.norm(r)), floor, 'refop'
+    vm = emg3d.models.VolumeModel(S['model'], sf)
+    rn = float(emg3d.solver.residual(vm, sf, efield, True))
+    return rn, 0.0, 'residual'
+
+
+def _levels(shape):
+    """Grid shapes of full coarsening: halve every direction that is even
+    and has more than two cells, until nothing changes."""
+    out = [tuple(int(n) for n in shape)]
+    while True:
+        s = out[-1]
+        t = tuple(n//2 if (n % 2 == 0 and n > 2) else n for n in s)
+        if t == s:
+            return out
+        out.append(t)
+
+
+def _schedule(shape, cycle, nu_pre, nu_post, nu_coarse=1):
+    """Smoothing calls (grid shape, nu) of ONE multigrid cycle: the textbook
+    recursion (V: one coarse-grid cycle; W: two; F: an F- followed by a
+    V-cycle; the coarsest grid is visited once per arrival), which is the
+    diagram of the emg3d.solve docstring."""
+    lv = _levels(shape)
+    L = len(lv)-1
+    seq = []
+
+    def cyc(lev, kind):
+        if lev == L:
+            seq.append((lv[lev], nu_coarse))
+            return
+        if nu_pre > 0:
+            seq.append((lv[lev], nu_pre))
+        cyc(lev+1, kind)
+        if lev+1 < L and kind != 'V':
+            cyc(lev+1, 'V' if kind == 'F' else 'W')
+        if nu_post > 0:
+            seq.append((lv[lev], nu_post))
+    cyc(0, cycle)
+    return seq
+
+
+def _solve(emg3d, spec, S, tol, maxit=60, efield=None, spy=False, **extra):
+    """One stand-alone multigrid solve; returns (efield, info, calls)."""
+    kw = dict(cycle=spec['cycle'], return_info=True, verb=-1, tol=tol,
+              nu_pre=spec['nu'][0], nu_post=spec['nu'][1], maxit=maxit)
+    kw.update(extra)
+    if spec.get('plain', False):
+        args, kw['plain'] = (), True
+    else:
+        args = ()
+        kw.update(sslsolver=False, semicoarsening=False,
+                  linerelaxation=False)
+    if efield is not None:
+        kw['efield'] = efield
+    calls = []
+    mod = emg3d.solver
+    orig = mod.smoothing
+    if spy:
+        def recorder(model, sfield, efield, nu, lr_dir):
+            calls.append((tuple(int(n) for n in model.grid.shape_cells),
+                          int(nu), int(lr_dir)))
+            return orig(model, sfield, efield, nu, lr_dir)
+        mod.smoothing = recorder
+    try:
+        out = emg3d.solve(S['model'], S['sf'], *args, **kw)
+    finally:
+        mod.smoothing = orig
+    if efield is None:
+        efield, info = out
+    else:
+        info = out
+    return efield, info, calls
+
+
+def _check_schedule(calls, info, shape, cycle, nus, where):
+    """nus = (nu_init, nu_pre, nu_coarse, nu_post)."""
+    if not calls:
+        raise HarnessError("C06: emg3d.solver.smoothing was not called "
+                           "during a multigrid solve; the schedule oracle "
+                           "cannot observe the cycle")
+    it = int(info['it_mg'])
+    one = _schedule(shape, cycle, nus[1], nus[3], nus[2])
+    exp = ([(tuple(shape), nus[0])] if nus[0] > 0 else []) + one*it
+    # a call with nu=0 is a no-op (zero Gauss-Seidel steps): not a visit
+    got = [(a, b) for a, b, _ in calls if b > 0]
+    if any(c != 0 for _, _, c in calls):
+        raise Violation(f"schedule_line_relaxation:{cycle}",
+                        f"{where}: linerelaxation=False, but smoothing was "
+                        f"called with lr_dir {sorted({c for *_, c in calls})}")
+    if got != exp:
+        k = next((i for i, (a, b) in enumerate(zip(got, exp)) if a != b),
+                 min(len(got), len(exp)))
+        def visits(seq):
+            d = {}
+            for shp, nu in seq:
+                d[shp] = d.get(shp, 0) + 1
+            return {'x'.join(map(str, s)): v for s, v in d.items()}
+        raise Violation(
+            f"cycle_schedule:{cycle}",
+            f"{where}: shape {tuple(shape)}, cycle {cycle}, nu(init,pre,"
+            f"coarse,post)={list(nus)}, {it} cycle(s): {len(got)} smoothing "
+            f"calls, expected {len(exp)}; first difference at call {k}: "
+            f"got {got[k] if k < len(got) else None}, expected "
+            f"{exp[k] if k < len(exp) else None}; visits per grid got "
+            f"{visits(got)}, expected {visits(exp)}")
+    fine = float(np.prod(shape))
+    return sum(np.prod(s)*nu for s, nu in one)/fine
+
+
+def _run(emg3d, spec, shape, h, fam, extras=False):
+    """Solve on one grid; returns a dict with independent figures."""
+    tol = _tol(spec)
+    maxit = 60
+    S = _setup(emg3d, spec, shape, h)
+    e, info, _ = _solve(emg3d, spec, S, tol, maxit)
+    tag = 'x'.join(map(str, shape))
     err = np.asarray(info['error_at_cycle'], float)
     it = int(info['it_mg'])
-    rho = float((err[-1]/err[0])**(1.0/max(1, len(err)-1)))
-    return int(info['exit']), it, rho, str(info['exit_message'])
+    ex = int(info['exit'])
+    ref = float(np.linalg.norm(S['sf'].field))
+    rn, floor, how = _true_residual(emg3d, S, e)
+    ctx = f"{tag}, nu={spec['nu']}, tol={tol:g}"
+    # --- the info dict describes the returned field -------------------------
+    if abs(float(info['ref_error']) - ref) > 1e-12*ref:
+        raise Violation(f"info_ref_error:{fam}",
+                        f"{ctx}: ref_error {info['ref_error']!r} vs "
+                        f"||sfield|| = {ref!r}")
+    if not (1 <= it <= maxit) or len(err) != it+1:
+        raise Violation(f"info_cycle_count:{fam}",
+                        f"{ctx}: it_mg={it}, maxit={maxit}, "
+                        f"{len(err)} entries in error_at_cycle")
+    ae = float(info['abs_error'])
+    if not np.isfinite(rn) or abs(ae-rn) > 1e-9*rn + 10*floor:
+        raise Violation(f"info_abs_error:{fam}",
+                        f"{ctx}: abs_error {ae:.6e} but ||s-Ae|| of the "
+                        f"returned field = {rn:.6e} ({how}, floor "
+                        f"{floor:.1e})")
+    if (abs(err[0]-ref) > 1e-12*ref or abs(err[-1]-ae) > 1e-12*ae or
+            abs(float(info['rel_error'])*ref - ae) > 1e-12*ae):
+        raise Violation(f"info_error_at_cycle:{fam}",
+                        f"{ctx}: error_at_cycle[0]={err[0]!r} (||s||="
+                        f"{ref!r}), error_at_cycle[-1]={err[-1]!r}, "
+                        f"rel_error={info['rel_error']!r} "
+                        f"(abs_error={ae!r})")
+    if ex == 0 and rn >= tol*ref*(1+1e-9) + floor:
+        raise Violation(f"converged_above_tol:{fam}",
+                        f"{ctx}: CONVERGED after {it} cycles, but ||s-Ae||/"
+                        f"||s|| = {rn/ref:.3e} ({how})")
+    q = err[1:]/err[:-1]
+    out = {'exit': ex, 'it': it, 'msg': str(info['exit_message']),
+           'rho': float((rn/ref)**(1.0/it)),
+           'worst': float(np.max(q[1:])) if len(q) > 1 else float(q[0]),
+           'last': float(q[-1]), 'first': float(q[0]), 'tol': tol}
+    if not extras or ex != 0 or it < 2:
+        return out
+    # --- prefix, schedule and restart on the SAME model / source objects ----
+    j = min(int(spec.get('jcut', 1)), it-1)
+    ej, infoj, calls = _solve(emg3d, spec, S, tol, maxit=j, spy=True)
+    work = _check_schedule(calls, infoj, shape, spec['cycle'],
+                           (0, spec['nu'][0], 1, spec['nu'][1]),
+                           f"maxit={j}")
+    rj, floorj, _ = _true_residual(emg3d, S, ej)
+    if int(infoj['it_mg']) != j or abs(rj-err[j]) > 1e-9*err[j] + 10*floorj:
+        raise Violation(f"prefix_history:{fam}",
+                        f"{ctx}: same objects solved again with maxit={j}: "
+                        f"it_mg={infoj['it_mg']}, ||s-Ae||={rj:.6e}; "
+                        f"error_at_cycle[{j}] of the full solve {err[j]:.6e}")
+    info2 = _solve(emg3d, spec, S, tol, maxit, efield=ej)[1]
+    err2 = np.asarray(info2['error_at_cycle'], float)
+    r2, floor2, _ = _true_residual(emg3d, S, ej)
+    ok = (int(info2['exit']) == 0 and int(info2['it_mg']) == it-j and
+          len(err2) == it-j+1 and
+          np.all(np.abs(err2[1:]-err[j+1:]) <= 1e-9*err[j+1:] + 10*floor2)
+          and abs(r2-rn) <= 1e-9*rn + 10*floor2)
+    if not ok:
+        raise Violation(f"restart_history:{fam}",
+                        f"{ctx}: continued from the field after {j} of {it} "
+                        f"cycles: exit={info2['exit']}, it_mg="
+                        f"{info2['it_mg']}, errors {err2[1:].tolist()} vs "
+                        f"{err[j+1:].tolist()}; final ||s-Ae||={r2:.6e} vs "
+                        f"{rn:.6e}")
+    out['work'] = float(work)
+    out['jcut'] = j
+    return out
 
 
-def case_family(spec, rec):
-    import emg3d
+def _sizes(spec):
     sizes = [8, 16, 32]
     if spec['big'] in (True, 'nc'):
         sizes.append(64)
     if spec['huge']:
         sizes.append(128)
-    fam = (f"{spec['cycle']}:"
-           f"{spec.get('acase', 'tri') if spec['aniso'] else 'iso'}:"
-           f"{'s' if spec['laplace'] else 'f'}")
+    return sizes
+
+
+def _nc_shape(spec):
+    if spec['noncubic'] is None:
+        return None
+    base = NONCUBIC[spec['noncubic']]
+    p = PERMS[spec.get('perm', 0)]
+    return tuple(base[i] for i in p)
+
+
+def _fam(spec):
+    return (f"{spec['cycle']}:{_medium_name(spec)}:"
+            f"{'s' if spec['laplace'] else 'f'}")
+
+
+def _family(emg3d, spec, sizes=None):
+    """All solves of a family; {size or 'nc': result dict}."""
+    fam = _fam(spec)
     res = {}
-    for n in sizes:
-        res[n] = _run(emg3d, spec, (n, n, n), 1000.0/n)
-    nc = None
-    if spec['noncubic'] is not None:
-        shp = NONCUBIC[spec['noncubic']]
-        nc = _run(emg3d, spec, shp, 1000.0/max(shp))
+    for n in (sizes or _sizes(spec)):
+        res[n] = _run(emg3d, spec, (n, n, n), 1000.0/n, fam, extras=(n == 16))
+    shp = _nc_shape(spec)
+    if shp is not None:
+        res['nc'] = _run(emg3d, spec, shp, 1000.0/max(shp), fam)
+    return res
+
+
+def _axis_order(shp):
+    return ''.join('xyz'[i] for i in np.argsort([-n for n in shp],
+                                                kind='stable'))
+
+
+def case_family(spec, rec):
+    import emg3d
+    sizes = _sizes(spec)
+    fam = _fam(spec)
+    res = _family(emg3d, spec)
+    nc = res.pop('nc', None)
+    shp = _nc_shape(spec)
     nus = sum(spec['nu'])
-    cap = CAPS[int(spec['aniso'])][nus]
-    for n, (ex, it, rho, msg) in list(res.items()) + (
-            [('nc', nc)] if nc else []):
-        if ex != 0:
+    asp = _aspect(spec)
+    kind = int(spec['aniso'] or asp != ASPECTS[0])
+    cap = CAPS[kind][nus]
+    capw = CAPS_W[kind][nus]
+    for n, r in list(res.items()) + ([('nc', nc)] if nc else []):
+        if r['exit'] != 0:
             raise Violation(f"not_converged:{fam}",
-                            f"n={n}: {msg} after {it} cycles (rho={rho:.3f})"
-                            f"; nu={spec['nu']}")
-    r16, it16 = res[16][2], res[16][1]
-    for n, (ex, it, rho, msg) in res.items():
+                            f"n={n}: {r['msg']} after {r['it']} cycles "
+                            f"(rho={r['rho']:.3f}); nu={spec['nu']}")
+    r16, it16, w16 = res[16]['rho'], res[16]['it'], res[16]['worst']
+    for n, r in res.items():
+        it, rho, w = r['it'], r['rho'], r['worst']
         if n >= 16 and rho > 1.5*r16 + 0.02:
             raise Violation(f"rate_deteriorates_with_refinement:{fam}",
                             f"rho({n})={rho:.3f} vs rho(16)={r16:.3f}; "
@@ -134,33 +465,117 @@ def case_family(spec, rec):
         if n >= 16 and it > it16 + 3:
             raise Violation(f"cycles_grow_with_refinement:{fam}",
                             f"{it} cycles at n={n}, {it16} at 16")
+        if n >= 16 and (w > capw or w > 1.5*w16 + 0.03):
+            raise Violation(f"worst_cycle_factor:{fam}",
+                            f"largest per-cycle factor after the first cycle "
+                            f"at n={n}: {w:.3f} (average {rho:.3f}); at 16: "
+                            f"{w16:.3f}; cap {capw:.3f}; nu={spec['nu']}, "
+                            f"tol={r['tol']:g}")
     if nc:
-        ex, it, rho, msg = nc
+        it, rho, w = nc['it'], nc['rho'], nc['worst']
         if rho > cap or rho > 1.5*r16 + 0.05 or it > it16 + 4:
             raise Violation(f"noncubic_rate:{fam}",
-                            f"shape {NONCUBIC[spec['noncubic']]}: rho="
+                            f"shape {shp}: rho="
                             f"{rho:.3f}, {it} cycles; rho(16)={r16:.3f}, "
                             f"cap {cap:.3f}")
+        if w > capw:
+            raise Violation(f"noncubic_worst_cycle_factor:{fam}",
+                            f"shape {shp}: largest per-cycle factor after "
+                            f"the first cycle {w:.3f} > cap {capw:.3f} "
+                            f"(average {rho:.3f}); nu={spec['nu']}")
     rec.cls(f"cycle={spec['cycle']}", f"aniso={spec['aniso']}",
-            f"medium={spec.get('acase', 'tri') if spec['aniso'] else 'iso'}",
+            f"medium={_medium_name(spec)}",
             f"laplace={spec['laplace']}", f"nu_total={nus}",
-            f"max_size={max(sizes)}", f"noncubic={nc is not None}")
+            f"max_size={max(sizes)}", f"noncubic={nc is not None}",
+            f"nu_zero={'pre' if spec['nu'][0] == 0 else 'post' if spec['nu'][1] == 0 else 'no'}",
+            f"origin={spec.get('origin', 0)}",
+            f"aspect={'x'.join(f'{a:g}' for a in asp)}",
+            f"plain_spelling={spec.get('plain', False)}",
+            f"tol={_tol(spec):g}",
+            f"jcut={res[16].get('jcut')}")
+    if spec['aniso'] and spec.get('acase', 'tri') == 'tri':
+        rec.cls("tri_order=" + ''.join(
+            f"{v:g}" for v in _props(spec)))
+    if nc:
+        rec.cls(f"noncubic_order={_axis_order(shp)}")
     rec.nt([spec['cycle'], spec['aniso'], spec.get('acase'), spec['laplace'],
             spec['nu'],
             spec['src'], spec['f'], max(sizes)])
     rec.note({'family': fam, 'nu': spec['nu'],
-              'rho': {str(n): round(v[2], 4) for n, v in res.items()},
-              'cycles': {str(n): v[1] for n, v in res.items()},
-              'noncubic': None if nc is None else [round(nc[2], 4), nc[1]]})
+              'rho': {str(n): round(v['rho'], 4) for n, v in res.items()},
+              'worst': {str(n): round(v['worst'], 4)
+                        for n, v in res.items()},
+              'cycles': {str(n): v['it'] for n, v in res.items()},
+              'work_per_cycle_16': round(res[16].get('work', 0.0), 3),
+              'noncubic': None if nc is None else
+              [list(shp), round(nc['rho'], 4), round(nc['worst'], 4),
+               nc['it']]})
+
+
+# ------------------------------------------------------- schedule sub-check
+def visits_strategy():
+    return st.fixed_dictionaries({
+        'cycle': st.sampled_from(['F', 'V', 'W']),
+        'shape': st.integers(0, len(VSHAPES)-1),
+        'perm': st.integers(0, 5),
+        'aniso': st.booleans(),
+        'acase': st.sampled_from(list(MEDIA)),
+        'tperm': st.integers(0, 5),
+        'laplace': st.booleans(),
+        # nu_init, nu_pre, nu_coarse, nu_post
+        'nus': st.tuples(st.integers(0, 2), st.integers(0, 3),
+                         st.integers(1, 3), st.integers(0, 3)).filter(
+            lambda t: t[1]+t[3] >= 1).map(list),
+        'maxit': st.integers(1, 3),
+        'src': st.tuples(st.floats(0.3, 0.7), st.floats(0.3, 0.7),
+                         st.floats(0.3, 0.7), st.floats(-180, 180),
+                         st.floats(-90, 90)).map(list),
+        'f': st.floats(-0.5, 0.5).map(lambda u: float(10**u)),
+        'origin': st.sampled_from([0, 1, 2]),
+        'plain': st.booleans(),
+    })
+
+
+def case_visits(spec, rec):
+    """The sequence of smoothing calls of 1..3 cycles is the V/F/W schedule
+    (exact, no thresholds); bounds the work per cycle (O(N) clause)."""
+    import emg3d
+    base = VSHAPES[spec['shape']]
+    shape = tuple(base[i] for i in PERMS[spec['perm']])
+    nus = spec['nus']
+    sp = dict(spec, nu=[nus[1], nus[3]], big=False, huge=False)
+    S = _setup(emg3d, sp, shape, 1000.0/max(shape))
+    # tol below anything 3 cycles can reach: all requested cycles are run
+    e, info, calls = _solve(emg3d, sp, S, 1e-30, maxit=spec['maxit'],
+                            spy=True, nu_init=nus[0], nu_coarse=nus[2])
+    if int(info['it_mg']) != spec['maxit']:
+        raise Violation(f"cycles_run:{spec['cycle']}",
+                        f"maxit={spec['maxit']}, tol=1e-30: it_mg="
+                        f"{info['it_mg']} ({info['exit_message']})")
+    work = _check_schedule(calls, info, shape, spec['cycle'], nus, 'visits')
+    # O(N): work per cycle in fine-grid smoothing sweeps is bounded
+    # independently of the grid size (geometric series with ratio 1/8 x the
+    # number of visits: V 8/7, F (8/7)^2, W 4/3) when every direction halves
+    L = len(_levels(shape))-1
+    rec.cls(f"cycle={spec['cycle']}", f"levels={L}",
+            f"cubic={len(set(shape)) == 1}", f"maxit={spec['maxit']}",
+            f"nu_init={nus[0]}", f"nu_coarse={nus[2]}",
+            f"nu_zero={'pre' if nus[1] == 0 else 'post' if nus[3] == 0 else 'no'}",
+            f"order={_axis_order(shape)}")
+    rec.nt([spec['cycle'], list(shape), nus, spec['maxit']])
+    rec.note({'shape': list(shape), 'cycle': spec['cycle'], 'nus': nus,
+              'calls': len(calls), 'work_per_cycle': round(float(work), 3)})
 
 
 SUBS = {'family': case_family, 'family64': case_family,
-        'family128': case_family}
+        'family128': case_family, 'visits': case_visits}
 
 
 def run(ctx):
     ctx.regression(SUBS)
     if ctx.quick:
+        ctx.explore('visits', visits_strategy(), case_visits, ctx.n(40, 40),
+                    shrink=False)
         # every medium in every run: 6 media x 2 families
         for k, med in enumerate(['iso'] + list(MEDIA)):
             ctx.explore('family', spec_strategy(False, medium=med),
@@ -168,6 +583,8 @@ def run(ctx):
         ctx.explore('family64', spec_strategy(True), case_family,
                     ctx.n(2, 2), shrink=False)
     else:
+        ctx.explore('visits', visits_strategy(), case_visits,
+                    ctx.n(40, 150), shrink=False)
         ctx.explore('family', spec_strategy(False), case_family,
                     ctx.n(10, 14), shrink=False)
         ctx.explore('family64', spec_strategy('nc'), case_family,
